@@ -342,6 +342,13 @@ def run_algo(cfg):
         opts = {"actor.optimizer": model.actor.optimizer, "critic.optimizer": model.critic.optimizer}
         tick = "critic.optimizer"
 
+    # stated precondition of every C08 statement about "the target": right after construction each target network is a copy of its online network
+    for nm in targets:
+        so, st_ = onlines[nm].state_dict(), targets[nm].state_dict()
+        diff = [k for k in so if k not in st_ or not th.equal(so[k], st_[k])]
+        if diff:
+            raise AssertionError(f"TARGET-NOT-A-COPY {nm}: {len(diff)} tensors differ from the online network right after construction, e.g. {diff[0]}")
+
     def tensors_of(net):
         return [p for p in net.parameters()] + [b for n, b in net.named_buffers() if "running_" in n]
 
@@ -689,16 +696,15 @@ def main():
     runs = [c for c in corpus] + [gen_run(chk.rng, i) for i in range(n_r)]
     ucases = [gen_units_case(chk.rng, i) for i in range(100 if quick else 1500)]
     pimpls, rimpls, derived, vals, ridx = run_all(chk, pcases, runs, ucases)
-    new = 0
+    new, model_only = 0, []
     for c, im, mv in zip(ucases, *run_all.units):
         orc = oracle_units(c, im)
         if orc and new < 3:
             chk.violation(orc[0][0], orc[0][1], {"units_case": c, "impl": im}, found_input=True)
             new += 1
-        elif not (all(mv[0]) and all(mv[1])) and new < 3:
-            chk.violation("model-correspondence-units-run", f"polyak_update sequence vs Model.Polyak.units_run disagree: {mv}", {"units_case": c, "impl": im,
-                          "correspondence": "harness/c08.py run_units vs Model.Polyak.units_run"}, found_input=False)
-            new += 1
+        elif not orc and not (all(mv[0]) and all(mv[1])):
+            model_only.append(("model-correspondence-units-run", f"polyak_update sequence vs Model.Polyak.units_run disagree: {mv}", {"units_case": c, "impl": im,
+                               "correspondence": "harness/c08.py run_units vs Model.Polyak.units_run"}))
     # (a)
     for c, im, mv in zip(pcases, pimpls, vals[:len(pcases)]):
         orc = oracle_polyak(c, im)
@@ -706,10 +712,9 @@ def main():
         if orc and new < 3:
             chk.violation(orc[0][0], orc[0][1], {"polyak_case": c, "impl": im}, found_input=True)
             new += 1
-        elif not mod_ok and new < 3:
-            chk.violation("model-correspondence-polyak", f"polyak_update vs Model.Polyak.polyak_list disagree: {mv}", {"polyak_case": c, "impl": im,
-                          "correspondence": "harness/c08.py run_polyak vs Model.Polyak.polyak_list"}, found_input=False)
-            new += 1
+        elif not orc and not mod_ok:
+            model_only.append(("model-correspondence-polyak", f"polyak_update vs Model.Polyak.polyak_list disagree: {mv}", {"polyak_case": c, "impl": im,
+                               "correspondence": "harness/c08.py run_polyak vs Model.Polyak.polyak_list"}))
     # (b)
     hist = {"algo": {}, "n_envs": {}, "gradient_steps": {}, "bn": 0, "updates": 0, "units": 0, "train_calls": 0, "f9_runs": 0, "closed_form_checked": 0}
     distinct = set()
@@ -720,7 +725,8 @@ def main():
         hist["bn"] += int(cfg["bn"])
         if d is None:
             if new < 3:
-                chk.violation("oracle-implementation-raised", "construction / learn() / an instrumented call raised on a legal configuration: " + im["crash"],
+                sig = "oracle-target-not-copy-of-online-at-construction" if "TARGET-NOT-A-COPY" in im["crash"] else "oracle-implementation-raised"
+                chk.violation(sig, "construction / learn() / an instrumented call raised on a legal configuration: " + im["crash"],
                               {"run": cfg, "traceback": im.get("traceback")}, found_input=True)
                 new += 1
             continue
@@ -745,16 +751,16 @@ def main():
         if other and new < 3:
             chk.violation(other[0][0], "; ".join(m for _, m in other[:3]), {"run": cfg, "problems": other[:10], "flags": flags, "model_flags": mflags, "train_calls": gs}, found_input=True)
             new += 1
-        elif cfg["train_freq"] != "episode" and not cfg.get("total2") and check_closed_form(cfg, im, flags, gs, vals[ri + 1]) and new < 3:
+        elif not other and cfg["train_freq"] != "episode" and not cfg.get("total2") and check_closed_form(cfg, im, flags, gs, vals[ri + 1]):
             cf = check_closed_form(cfg, im, flags, gs, vals[ri + 1])
-            chk.violation("model-correspondence-" + cf[0][0], cf[0][1], {"run": cfg, "flags": flags, "train_calls": gs,
-                          "correspondence": "harness/c08.py instrumented run vs Model.LearnCadence closed forms"}, found_input=False)
-            new += 1
-        elif mflags != flags and new < 3:
-            chk.violation("model-correspondence-cadence", f"{cfg['algo']}: update flags impl {flags} model {mflags}",
-                          {"run": cfg, "flags": flags, "model_flags": mflags, "train_calls": gs,
-                           "correspondence": "harness/c08.py instrumented run vs Model.Cadence"}, found_input=False)
-            new += 1
+            model_only.append(("model-correspondence-" + cf[0][0], cf[0][1], {"run": cfg, "flags": flags, "train_calls": gs,
+                               "correspondence": "harness/c08.py instrumented run vs Model.LearnCadence closed forms"}))
+        elif not other and mflags != flags:
+            model_only.append(("model-correspondence-cadence", f"{cfg['algo']}: update flags impl {flags} model {mflags}",
+                               {"run": cfg, "flags": flags, "model_flags": mflags, "train_calls": gs,
+                                "correspondence": "harness/c08.py instrumented run vs Model.Cadence"}))
+    for sig, what, rp in model_only[:max(0, 3 - new)]:       # model / implementation disagreements the oracle does not confirm: after the concrete inputs
+        chk.violation(sig, what, rp, found_input=False)
     chk.coverage["evaluations"] = len(pcases) + len(runs) + len(ucases)
     chk.coverage["traces_validated_against_impl"] = len(runs)
     chk.coverage["distinct_nontrivial"] = len(distinct)
